@@ -760,9 +760,9 @@ pub fn str_contains(s1: &SmtString, s2: &SmtString) -> bool {
 ///
 /// Index of the first occurrence of s2 in s1, starting from index i
 ///
-/// - If 0 <= i < s1.len and s2 occurs in s1[i ..] then return the index j >= i
-///   of the first occurrence of s2 in s1[i ..].
-/// - Return -1 if i < 0 or i >= s1.len or s2 does not occur in s1[i ..]
+/// - If 0 <= i <= s1.len and s2 occurs in s1[i ..] then return the index j >= i
+///   of the first occurrence of s2 in s1[i ..] (the empty string occurs at i = s1.len).
+/// - Return -1 if i < 0 or i > s1.len or s2 does not occur in s1[i ..]
 ///
 /// # Examples
 /// ```
@@ -779,7 +779,7 @@ pub fn str_contains(s1: &SmtString, s2: &SmtString) -> bool {
 /// ```
 ///
 pub fn str_indexof(s1: &SmtString, s2: &SmtString, i: i32) -> i32 {
-    if i < 0 || i >= s1.len() as i32 {
+    if i < 0 || i > s1.len() as i32 {
         -1
     } else {
         match find_sub_vector(&s2.s, &s1.s, i as usize) {
